@@ -1,4 +1,5 @@
 import GA.Proofs.LayerPost
+import GA.Generated.Facts
 import GA.Props.C06c
 /-
   C06, first clause, for whole layers: **a whiteout for X removes X and everything beneath it** — not just in
@@ -126,6 +127,25 @@ theorem layer_whiteout_removes (dest : Str) (o : Opts) (pre post : List Entry) (
             | ok s3 =>
               simp only [resSt] at hpostF ⊢
               exact layerEnd_names _ (clean dest) o hd rfl s3 w3 hpostF.2.1 hpostF.2.2.1 q h3
+
+/-- what one iteration of `UnpackLayer` decides about an object that already exists at an ordinary entry's path:
+    1 = refuse (the destination itself would be traded for a non-directory), 3 = remove it first, 0 = merge -/
+def layerDecision (l : Res) (e : Entry) (self : Bool) : Nat :=
+  if needRmL l e && self && e.typ != .dir then 1 else if needRmL l e then 3 else 0
+
+/-- that decision is, case by case, the nested `if` the extractor reads out of `UnpackLayer`'s source — regenerated
+    on every run; `layerIterP` branches on exactly these two tests (`needRmL`, and `p = Clean(dest)` for `self`) -/
+theorem layerDecision_is_generated (s : StatInfo) (e : Entry) (self : Bool) :
+    ∃ f, Facts.unpackLayerDecision? = some f ∧
+      layerDecision (.stat s) e self = f (s.kind == .dir) (e.typ == .dir) self := by
+  refine ⟨_, rfl, ?_⟩
+  unfold layerDecision needRmL
+  cases hk : (s.kind == Kind.dir) <;> cases ht : (e.typ == Typ.dir) <;> cases self <;> simp_all
+
+/-- and nothing is refused or removed when `lstat` finds nothing -/
+theorem layerDecision_absent (e : Entry) (self : Bool) (r : Res) (h : ∀ s, r ≠ .stat s) : layerDecision r e self = 0 := by
+  unfold layerDecision needRmL
+  cases r <;> simp_all
 
 /-! ### non-vacuity: a layer that adds a file, whites out `keep`, and adds another file -/
 
